@@ -140,4 +140,36 @@ def r4_unknown_skipped(ctx):
                 ctx.ob("R4", fn + "[Text]", seen["Text"] == ["visit_unit"] or "visit_unit" in seen["Text"], "ignored text is dropped", config=cfg)
 
 
-RULES = [("R1", r1_trim_table), ("R2", r2_merge), ("R3", r3_expand), ("R4", r4_unknown_skipped)]
+def r5_trimmer_in_sync(ctx):
+    """The start-trimming decision depends on the last event the reader consumed. Every XmlRead method that lets the
+    underlying reader consume events must bring the trimmer state up to date on its success path: `next` does it
+    through StartTrimmer::trim; a skip that ends with an End event must leave the state as after an End
+    (otherwise whitespace after a skipped unknown element is kept or dropped depending on what the element contained)."""
+    for cfg, F in ctx.facts.items():
+        n = 0
+        for ty in ("SliceReader", "IoReader"):
+            for b in F.bodies_with("de::" + ty, "XmlRead"):
+                meth = strip_generics(b.path).split("::")[-1]
+                consuming = [(i, t) for i, t in b.calls() if name_is(callee_of(t)[0] or "", "read_event", "read_event_into", "read_to_end", "read_to_end_into", "read_text")]
+                if not consuming:
+                    continue
+                for p in ctx.paths(b):
+                    ks = [k for k, e in enumerate(p) if e[0] == "call" and name_is(e[2], "read_event", "read_event_into", "read_to_end", "read_to_end_into", "read_text")]
+                    if not ks or p[-1][0] not in ("ret", "loop"):
+                        continue
+                    if p[-1][0] == "ret":
+                        r = ret_of(p)
+                        rv = describe_ret(r, 0)[0]
+                        if rv[:1] == ("Err",) or (r[0] == "call" and name_is(r[2], "from_residual")):
+                            continue
+                    n += 1
+                    tail = p[ks[-1] + 1:]
+                    synced = any(e[0] == "call" and name_is(e[2], "StartTrimmer::trim") for e in tail) or \
+                        any(e[0] == "store" and has_subterm(e[2], lambda s: s[0] == "pl" and ("start_trimmer" in fields_of(s) or "trim_start" in fields_of(s))) for e in tail)
+                    ctx.ob("R5", "%s::%s:trimmer-in-sync" % (ty, meth), synced,
+                           "%s::%s lets the reader consume events (%s) but leaves the start-trimming state as it was before them: after a skipped element the next text is trimmed or not depending on the last event read *before* the skip" % (ty, meth, sym.short(p[ks[-1]][2]).split("::")[-1]),
+                           loc=b.loc(p[ks[-1]][4]), config=cfg)
+        ctx.floor("R5", "event-consuming success paths of the XmlRead impls", n, 4, config=cfg)
+
+
+RULES = [("R1", r1_trim_table), ("R2", r2_merge), ("R3", r3_expand), ("R4", r4_unknown_skipped), ("R5", r5_trimmer_in_sync)]
